@@ -174,15 +174,20 @@ def build_discipline(t, ctx):
     finally:
         Discipline.default_grammar_type = prev
     path = None
+    # a cache tolerance is a setting like another: it travels with the object, and inputs within the tolerance of a
+    # stored one (the last input of the list is the first one shifted by 1e-5) are served alike by both sides
+    tol = 1e-3 if cache != "none" and t.flag(0.3, "cache_tolerance") else 0.0
+    if tol and inputs[0]:
+        inputs = [*inputs[:3], {k: np.array(v, dtype=float) + 1e-5 for k, v in inputs[0].items()}]
     if cache == "none":
         d.set_cache(Discipline.CacheType.NONE)
     elif cache == "SimpleCache":
-        d.set_cache("SimpleCache")
+        d.set_cache("SimpleCache", tolerance=tol)
     elif cache.startswith("MemoryFullCache"):
-        d.set_cache("MemoryFullCache", is_memory_shared=cache == "MemoryFullCache")
+        d.set_cache("MemoryFullCache", tolerance=tol, is_memory_shared=cache == "MemoryFullCache")
     else:
         path = str(ctx.scratch / "c20_cache.h5")
-        d.set_cache("HDF5Cache", hdf_file_path=path, hdf_node_path="n")
+        d.set_cache("HDF5Cache", tolerance=tol, hdf_file_path=path, hdf_node_path="n")
     return d, inputs, f"discipline:{kind}/{grammar}/{cache}", False, cache
 
 
@@ -443,6 +448,7 @@ def grammar_view(d):
     return {
         "in": sorted(ig.names), "out": sorted(og.names), "req_in": sorted(ig.required_names), "req_out": sorted(og.required_names),
         "defaults": canon({k: v for k, v in ig.defaults.items()}), "gtype": type(ig).__name__,
+        "cache": None if getattr(d, "cache", None) is None else (type(d.cache).__name__, repr(float(d.cache.tolerance))),
     }
 
 
